@@ -617,3 +617,30 @@ def explore(
         if gc_was:
             gc.enable()
         gc.collect()
+
+
+def run_sync(coro: Any, loop: Optional[VLoop] = None) -> Any:
+    """Run a coroutine that needs no external event to completion on a VLoop.
+
+    Timers (asyncio.sleep etc.) are fired in deadline order. Returns the result or
+    raises the coroutine's exception.
+    """
+    own = loop is None
+    loop = loop or VLoop()
+    events._set_running_loop(None)
+    events._set_running_loop(loop)
+    try:
+        task = loop.create_task(coro)
+        for _ in range(100000):
+            loop.run_to_quiescence()
+            if task.done():
+                break
+            timers = loop.pending_timers()
+            if not timers:
+                raise HarnessError("run_sync: coroutine is blocked on something nobody will resolve")
+            loop.fire_timer(timers[0])
+        return task.result()
+    finally:
+        events._set_running_loop(None)
+        if own:
+            loop.close()
